@@ -18,7 +18,7 @@ import common
 import qgen
 
 RULE = ('seeded type-agnostic queries (string expressions, where, order by, distinct, top, count/array-free aggregates, update, except) over rectangular string tables '
-        'with a header, through 9 entry points; failing queries for the CLI error discipline. non-trivial iff the table is non-empty; distinct = distinct (query, table)')
+        'with a header, and JOIN queries (several partners per key, fields that need quoting, star-only select lists) with the join table as list / CSV file / DataFrame / sqlite table, through 9 entry points; failing queries for the CLI error discipline. non-trivial iff the table is non-empty; distinct = distinct (query, table)')
 
 HEADER = ['c1', 'c2', 'c3']
 
@@ -30,7 +30,7 @@ import pandas
 from rbql import rbql_pandas
 cases = json.loads(sys.stdin.read())
 d = tempfile.mkdtemp(prefix='rbqlverif_c13_')
-def norm(rows): return [['' if x is None else str(x) for x in r] for r in rows]
+def norm(rows): return [['' if (x is None or (isinstance(x, float) and x != x)) else str(x) for x in r] for r in rows]   # a DataFrame shows None as NaN
 def read_csv(path, delim=',', policy='quoted'):
     with open(path, 'rb') as f:
         it = rbql_csv.CSVRecordIterator(f, 'utf-8', delim, policy)
@@ -60,39 +60,51 @@ for ci, c in enumerate(cases):
             o[name] = fn()
         except Exception as e:
             o[name] = {'err': rbql_engine.exception_to_error_info(e)[0]}
+    B, JH = c.get('join_table'), c.get('join_header')
     def f_table():
         res = []; names = []
-        rbql.query_table(q, [r[:] for r in T], res, [], None, c['header'], None, names)
+        rbql.query_table(q.replace('JOINTBL', 'b'), [r[:] for r in T], res, [], None if B is None else [r[:] for r in B], c['header'], JH, names)
         return {'rows': norm(res), 'header': names or None}
     def f_query():
         w = Wr()
-        rbql_engine.query(q, It([r[:] for r in T], c['header']), w, [])
+        reg = None if B is None else rbql_engine.ListTableRegistry([rbql_engine.ListTableInfo('b', [r[:] for r in B], JH)])
+        rbql_engine.query(q.replace('JOINTBL', 'b'), It([r[:] for r in T], c['header']), w, [], reg)
         return {'rows': norm(w.rows), 'header': w.header}
+    jp = None
+    if B is not None:
+        jp = os.path.join(d, 'join_%d.csv' % ci)
+        with open(jp, 'w', encoding='utf-8', newline='') as f:
+            for r in [JH] + B:
+                f.write(','.join(rbql.csv_utils.quote_field(x, ',') for x in r) + '\n')
     inp = os.path.join(d, 'in_%d.csv' % ci)
     with open(inp, 'w', encoding='utf-8', newline='') as f:
         for r in [c['header']] + T:
             f.write(','.join(rbql.csv_utils.quote_field(x, ',') for x in r) + '\n')
     def f_csv():
         outp = os.path.join(d, 'out_%d.csv' % ci)
-        rbql_csv.query_csv(q, inp, ',', 'quoted', outp, ',', 'quoted', 'utf-8', [], True)
+        rbql_csv.query_csv(q.replace('JOINTBL', jp or 'b'), inp, ',', 'quoted', outp, ',', 'quoted', 'utf-8', [], True)
         recs = read_csv(outp)
         return {'rows': recs[1:], 'header': recs[0] if recs else None} if c['expect_header'] else {'rows': recs, 'header': None}
     def f_pandas():
         df = pandas.DataFrame(T, columns=c['header'])
-        r = rbql_pandas.query_dataframe(q, df, [])
+        r = rbql_pandas.query_dataframe(q.replace('JOINTBL', 'b'), df, [], None if B is None else pandas.DataFrame(B, columns=JH))
         return {'rows': norm(r.values.tolist()), 'header': [str(x) for x in r.columns]}
     def f_sqlite():
         conn = sqlite3.connect(os.path.join(d, 'db_%d.sqlite' % ci))
         conn.execute('CREATE TABLE t (%s)' % ', '.join('%s TEXT' % n for n in c['header']))
         conn.executemany('INSERT INTO t VALUES (%s)' % ','.join('?' * len(c['header'])), T)
+        if B is not None:
+            conn.execute('CREATE TABLE jt (%s)' % ', '.join('%s TEXT' % n for n in JH))
+            conn.executemany('INSERT INTO jt VALUES (%s)' % ','.join('?' * len(JH)), B)
         conn.commit()
         outp = os.path.join(d, 'sq_%d.csv' % ci)
-        rbql_sqlite.query_sqlite_to_csv(q, conn, 't', outp, ',', 'quoted', 'utf-8', [])
+        rbql_sqlite.query_sqlite_to_csv(q.replace('JOINTBL', 'jt'), conn, 't', outp, ',', 'quoted', 'utf-8', [])
         conn.close()
         recs = read_csv(outp)
         return {'rows': recs[1:], 'header': recs[0] if recs else None} if c['expect_header'] else {'rows': recs, 'header': None}
     attempt('query_table', f_table); attempt('query', f_query); attempt('query_csv', f_csv); attempt('pandas', f_pandas); attempt('sqlite', f_sqlite)
     o['input_path'] = inp
+    o['join_path'] = jp
     out.append(o)
 print(json.dumps({'dir': d, 'out': out}))
 '''
@@ -103,8 +115,21 @@ def gen_cases(rnd, n):
     for _ in range(n):
         nrows = rnd.randint(0, 5)
         T = [[rnd.choice(['x', 'y', 'z', 'x y', 'a,b', 'q"t', '10', '9', '']) for _c in range(3)] for _r in range(nrows)]
-        shape = rnd.choice(['select', 'select', 'where', 'order', 'distinct', 'top', 'agg', 'update', 'except', 'names'])
+        shape = rnd.choice(['select', 'select', 'where', 'order', 'distinct', 'top', 'agg', 'update', 'except', 'names', 'join', 'join', 'join'])
         q = {'items': []}
+        if shape == 'join':
+            # JOIN through every entry point: keys with several partners on both sides, fields that need quoting, star-only select lists
+            keys = rnd.sample(['x', 'y', 'z', 'a,b', 'q"t'], rnd.randint(1, 3))
+            for r in T:
+                r[0] = rnd.choice(keys)
+            B = [[rnd.choice(keys + ['nope']), rnd.choice(['u', 'v,w', 'p"q', '', 'x y'])] for _r in range(rnd.randint(0, 4))]
+            sel = rnd.choice(['a.*', 'b.*', '*', 'a1, b2', 'b.*, a2', 'a.*, b2', 'a2, b.*', 'b2', 'a.*, b.*', 'NR, b.*'])
+            kind = rnd.choice(['join', 'inner join', 'left join', 'JOIN'])
+            text = 'select %s%s %s JOINTBL on %s' % (rnd.choice(['', '', 'distinct ', 'top 3 ']), sel, kind, rnd.choice(['a1 == b1', 'b1 == a1', 'a1 = b1']))
+            if rnd.random() < 0.3:
+                text += rnd.choice([' where a2 != "x"', ' order by a2', ' where b2 != "u"']) if 'left' not in kind else ' order by a2'
+            cases.append({'query': text, 'table': T, 'header': HEADER, 'expect_header': True, 'join_table': B, 'join_header': ['k', 'v']})
+            continue
         if shape == 'update':
             q = {'update': True, 'items': [], 'assigns': [[rnd.randrange(3), rnd.choice([['lit', 'U'], ['concat', ['a', 0], ['lit', '+']], ['a', 2]])]]}
             if rnd.random() < 0.5:
@@ -164,11 +189,12 @@ def run(res, tier, seed):
             inp = o['input_path']
             v = {}
             outp = os.path.join(tmpd, 'cli_%d.csv' % i)
-            rc, so, se = run_cli(['--input', inp, '--delim', ',', '--policy', 'quoted', '--with-headers', '--query', c['query'], '--output', outp])
+            qtext = c['query'].replace('JOINTBL', o.get('join_path') or 'b')
+            rc, so, se = run_cli(['--input', inp, '--delim', ',', '--policy', 'quoted', '--with-headers', '--query', qtext, '--output', outp])
             v['cli_file'] = {'rc': rc, 'stdout': so.decode('utf-8', 'replace'), 'stderr': se, 'rows': parse_csv_bytes(open(outp, 'rb').read()) if rc == 0 and os.path.exists(outp) else None}
             data = open(inp, 'rb').read()
             for fmt, (d, p) in (('input', (',', 'quoted')), ('csv', (',', 'quoted')), ('tsv', ('\t', 'simple'))):
-                rc, so, se = run_cli(['--delim', ',', '--policy', 'quoted', '--with-headers', '--query', c['query'], '--out-format', fmt], stdin_data=data)
+                rc, so, se = run_cli(['--delim', ',', '--policy', 'quoted', '--with-headers', '--query', qtext, '--out-format', fmt], stdin_data=data)
                 v['cli_stdio_' + fmt] = {'rc': rc, 'stderr': se, 'rows': parse_csv_bytes(so, d, p) if rc == 0 else None, 'stdout_raw': so.decode('utf-8', 'replace') if rc != 0 else ''}
             return v
         with ThreadPoolExecutor(max_workers=common.NPROC) as ex:
@@ -218,7 +244,7 @@ def run(res, tier, seed):
         if why:
             nbad += 1
             if nbad <= 5:
-                res.violations.append({'property': 'C13', 'impl': 'py', 'why': why, 'query_py': c['query'], 'table': c['table'], 'header': c['header'], 'query_table_says': ref,
+                res.violations.append({'property': 'C13', 'impl': 'py', 'why': why, 'query_py': c['query'], 'table': c['table'], 'header': c['header'], 'join_table': c.get('join_table'), 'join_header': c.get('join_header'), 'query_table_says': ref,
                                        'case_key': 'C13|' + c['query'] + '|' + json.dumps(c['table'])})
     res.count('disagreements', nbad)
     for c in cases[:3]:
